@@ -51,6 +51,13 @@ MUT = {
  "c02_intel_index": ("bempp_cl/core/numba_kernels.py",
     "                tmp[number_of_quad_points * element_index + quad_point_index] += (\n                    grid_data.integration_elements[element]",
     "                tmp[number_of_quad_points * element_index + quad_point_index] += (\n                    grid_data.integration_elements[element_index]", ["C02"]),
+ "c17_div_slot": ("bempp_cl/api/fmm/fmm_assembler.py", None, None, ["C17"]),
+ "c06_mfield_sing_sign": ("bempp_cl/core/numba_kernels.py", None, None, ["C06"]),
+ "c07_normals_grid": ("bempp_cl/core/numba_kernels.py", None, None, ["C07"]),
+ "c02_mult_twice": ("bempp_cl/core/numba_kernels.py",
+    "                    * x[number_of_shape_functions * element + fun_index]\n                )\n\n    for point_index in _numba.prange(number_of_points):\n        test_point = points[:, point_index]\n",
+    "                    * x[number_of_shape_functions * element + fun_index]\n                    * normal_multipliers[element]\n                )\n\n    for point_index in _numba.prange(number_of_points):\n        test_point = points[:, point_index]\n", ["C02"]),
+ "seed_C04_1": (None, None, None, ["C06"]),
 }
 
 def main():
@@ -61,9 +68,27 @@ def main():
     subprocess.run(["rsync", "-a", "--delete", "--exclude", ".git", "--exclude", ".scratch", "--exclude", "replays",
                     "--exclude", "evidence", "/verif/", vf + "/"], check=True)
     f, old, new, checks = MUT[name]
+    if name == "seed_C04_1":
+        subprocess.run(["git", "-C", wt, "apply", "/verif/seeded/C04-1/patch.diff"], check=True)
+        f = "bempp_cl/core/numba_kernels.py"
     p = os.path.join(wt, f)
     s = open(p).read()
-    if name == "c06_normal_mult":
+    if name == "seed_C04_1":
+        s2 = s + "\n"
+    elif name == "c17_div_slot":
+        i = s.index("def compute_rwg_div_transform_impl(")
+        j = s.index("iind[index] = number_of_quad_points * element + point_index", i)
+        s2 = s[:j] + "iind[index] = number_of_quad_points * element_index + point_index" + s[j + len("iind[index] = number_of_quad_points * element + point_index"):]
+    elif name == "c06_mfield_sing_sign":
+        i = s.index("def maxwell_mfield_singular(")
+        j = s.index("* (1j * wavenumber * dist - 1)", i)
+        s2 = s[:j] + "* (1j * wavenumber * dist + 1)" + s[j + len("* (1j * wavenumber * dist - 1)"):]
+    elif name == "c07_normals_grid":
+        i = s.index("def default_scalar_regular_kernel(")
+        t = "trial_normals = get_normals(trial_grid_data, n_quad_points, trial_elements, trial_normal_multipliers)"
+        j = s.index(t, i)
+        s2 = s[:j] + "trial_normals = get_normals(test_grid_data, n_quad_points, trial_elements, trial_normal_multipliers)" + s[j + len(t):]
+    elif name == "c06_normal_mult":
         # modified Helmholtz regular hypersingular: forget the test normal multiplier in the surface curls
         i = s.index("def modified_helmholtz_hypersingular_regular(")
         j = s.index("* test_normal_multipliers[test_element]", i)
@@ -84,6 +109,12 @@ def main():
         env = dict(os.environ, VERIF_REPO=wt)
         r = subprocess.run(["timeout", "2400", vf + "/check", c, "--tier", "quick"], env=env, capture_output=True, text=True)
         lines = [l for l in (r.stdout + r.stderr).splitlines() if "WARNING" not in l]
+        import json as _j
+        try:
+            ev = _j.load(open(vf + "/evidence/%s.json" % c))
+            print("  %s corr_disagreements=%s failures_known=%s wall=%s" % (c, ev["coverage"]["correspondence"]["disagreements"], ev["coverage"]["known_findings_hit"], ev["wall_s"]))
+        except Exception as ex:
+            print("  (no evidence: %r)" % (ex,))
         keep = [l for l in lines if l.startswith(("VIOLATION", "BROKEN", "KNOWN", c + " tier"))]
         print("  %s exit=%d" % (c, r.returncode))
         for l in keep[:8]:
